@@ -974,6 +974,10 @@ def cache_fft(time_series, ij, lb=0, ub=None,
     lb_idx, ub_idx = utils.get_bounds(freqs, lb, ub)
 
     n_freqs = ub_idx - lb_idx
+    # Where in the band the components without a negative-frequency twin are
+    # (DC and, for even NFFT, NFFT/2): a one-sided spectrum does not double them
+    unpaired = [0] if NFFT % 2 else [0, NFFT // 2]
+    unpaired_idx = [k - lb_idx for k in unpaired if lb_idx <= k < ub_idx]
     # Make the window:
     if np.iterable(window):
         assert(len(window) == NFFT)
@@ -1021,7 +1025,8 @@ def cache_fft(time_series, ij, lb=0, ub=None,
             FFT_conj_slices[i_channel] = np.conjugate(Slices)
 
     cache = {'FFT_slices': FFT_slices, 'FFT_conj_slices': FFT_conj_slices,
-             'norm_val': norm_val, 'Fs': Fs, 'scale_by_freq': scale_by_freq}
+             'norm_val': norm_val, 'Fs': Fs, 'scale_by_freq': scale_by_freq,
+             'unpaired_idx': unpaired_idx}
 
     return freqs, cache
 
@@ -1071,7 +1076,7 @@ def cache_to_psd(cache, ij):
 
         Pxx[i] /= norm_val
         # Correct for the NFFT/2 and DC components:
-        Pxx[i][[0, -1]] /= 2
+        Pxx[i][..., cache['unpaired_idx']] /= 2
 
     return Pxx
 
